@@ -2,6 +2,7 @@ package checks
 
 import (
 	"bytes"
+	"context"
 	"crypto/sha256"
 	"fmt"
 	"github.com/crate-crypto/go-ipa/common/parallel"
@@ -609,12 +610,21 @@ func c12Units(ctx *core.Ctx) []core.Unit {
 				r.ToolError = "race flavour binary not provided by vrun"
 				return
 			}
-			cmd := exec.Command(bin, "-prop", "C12", "-tier", ctx.Tier, "-seed", fmt.Sprint(ctx.Seed), "-rununit", "race bodies")
+			// the child normally takes 1-2 minutes; its own per-call limits report hangs, this limit only makes
+			// sure nothing is left behind when even that does not end
+			limit := 18 * time.Minute // below the unit limit of this check, so that the child never outlives its parent
+			cctx, cancel := context.WithTimeout(context.Background(), limit)
+			defer cancel()
+			cmd := exec.CommandContext(cctx, bin, "-prop", "C12", "-tier", ctx.Tier, "-seed", fmt.Sprint(ctx.Seed), "-rununit", "race bodies")
 			cmd.Env = append(os.Environ(), "VERIF_FLAVOUR_CHILD=1", "GOMAXPROCS="+gmp, "GORACE=halt_on_error=0 exitcode=0")
 			var errb bytes.Buffer
 			cmd.Stderr = &errb
 			out, err := cmd.Output()
 			es := errb.String()
+			if cctx.Err() != nil {
+				vio(r, "c12.termination", "concurrent API calls", "all pairs of the C12 bodies free-running under -race, GOMAXPROCS="+gmp, "every call returns", fmt.Sprintf("the pass was still running after %s (it normally takes minutes)", limit))
+				return
+			}
 			if strings.Contains(es, "DATA RACE") {
 				// a report counts against the property only when the racing accesses are in go-ipa itself
 				// (a race confined to harness code is a tooling error)
